@@ -303,6 +303,15 @@ type chanLock struct {
 
 func (c *chanLock) init() { c.once.Do(func() { c.ch = make(chan struct{}, 1) }) }
 func (c *chanLock) lock() { c.init(); c.ch <- struct{}{} }
+func (c *chanLock) tryLock() bool {
+	c.init()
+	select {
+	case c.ch <- struct{}{}:
+		return true
+	default:
+		return false
+	}
+}
 func (c *chanLock) unlock() {
 	c.init()
 	select {
@@ -318,12 +327,22 @@ type Mutex struct{ c chanLock }
 func (m *Mutex) Lock()   { m.c.lock(); addHeld(1) }
 func (m *Mutex) Unlock() { addHeld(-1); m.c.unlock() }
 
+// TryLock as sync.Mutex.TryLock (a change to the code under test may start using it).
+func (m *Mutex) TryLock() bool {
+	if m.c.tryLock() {
+		addHeld(1)
+		return true
+	}
+	return false
+}
+
 // OpenMutex replaces sync.Mutex for the exempted mutexes (see package comment): same exclusion,
 // but the holder stays preemptible.
 type OpenMutex struct{ c chanLock }
 
 func (m *OpenMutex) Lock()   { m.c.lock() }
 func (m *OpenMutex) Unlock() { m.c.unlock() }
+func (m *OpenMutex) TryLock() bool { return m.c.tryLock() }
 
 // RWMutex replaces sync.RWMutex: writer-preferring like the original (a waiting Lock blocks new
 // RLocks). Waiters block on a channel that is closed on every release (durable for synctest).
@@ -383,6 +402,28 @@ func (m *RWMutex) RLock() {
 	}
 	m.readers++
 	m.mu.Unlock()
+}
+// TryLock / TryRLock as sync.RWMutex.
+func (m *RWMutex) TryLock() bool {
+	m.mu.Lock()
+	if m.writer || m.readers > 0 {
+		m.mu.Unlock()
+		return false
+	}
+	m.writer = true
+	m.mu.Unlock()
+	addHeld(1)
+	return true
+}
+func (m *RWMutex) TryRLock() bool {
+	m.mu.Lock()
+	if m.writer || m.wwait > 0 {
+		m.mu.Unlock()
+		return false
+	}
+	m.readers++
+	m.mu.Unlock()
+	return true
 }
 func (m *RWMutex) RUnlock() {
 	m.mu.Lock()
